@@ -1396,29 +1396,30 @@ Proof.
   - apply purge_txn_none in Ep. tauto.
 Qed.
 
-Theorem purged_approvals_do_not_count cur caller self ex o st' r a :
+Theorem purged_approvals_do_not_count cur caller self ex o st' r (x : addr) :
   wallet_inv cur ->
-  (exists dec, o = RemoveSigner a dec) \/ (exists b, o = SwapSigner a b) ->
+  (exists dec, o = RemoveSigner x dec) \/ (exists b, o = SwapSigner x b) ->
   wallet_method cur 0 0 caller self ex o = Done st' r ->
+  let a := a_id x in
   a ∉ signers st' /\ purged a (pending cur) (pending st') /\
   (forall id t, pending st' !! id = Some t -> a ∉ t_approved t).
 Proof.
-  intros (Hwf & Hp & _) Ho H.
+  intros (Hwf & Hp & _) Ho H a.
   assert (forall id t, pending cur !! id = Some t -> t_approved t <> []) as Hne.
   { intros id t Ht. destruct (Hp id t Ht) as (_&?&_). assumption. }
   assert (pending st' = omap (purge_txn a) (pending cur) /\ a ∉ signers st') as (Hpend & Hns).
-  { destruct Ho as [(dec & ->)|(b & ->)]; cbn [wallet_method] in H.
+  { destruct Ho as [(dec & ->)|(b & ->)]; cbn [wallet_method] in H; fold a in H.
     - unfold remove_signer in H.
       repeat match type of H with context [if ?b then _ else _] => destruct b; try discriminate end;
         inversion H; cbn; (split; [reflexivity|]); rewrite remove_addr_elem; tauto.
     - unfold swap_signer in H.
       destruct (negb (N.eqb caller self)); [discriminate|].
-      destruct (negb (ex b)); [discriminate|].
+      destruct (negb (ex (a_id b))); [discriminate|].
       destruct (is_signer cur a) eqn:Ea; [|discriminate]. cbn [negb] in H.
-      destruct (is_signer cur b) eqn:Eb; [discriminate|].
+      destruct (is_signer cur (a_id b)) eqn:Eb; [discriminate|].
       inversion H. cbn. split; [reflexivity|].
       rewrite elem_of_app, remove_addr_elem, elem_of_list_singleton.
-      intros [[_ Hx]|Hx]; [congruence|]. subst b. congruence. }
+      intros [[_ Hx]|Hx]; [congruence|]. rewrite <- Hx in Eb. congruence. }
   split; [assumption|]. split.
   - rewrite Hpend. apply purge_purged. assumption.
   - intros id t Ht. rewrite Hpend, purge_lookup in Ht.
